@@ -182,7 +182,16 @@ impl Monitor for C04 {
             if exp.iter().any(|g| g.keep == Keep::Maybe || (g.keep == Keep::Yes && g.cells.iter().any(|c| !c.singleton_value()))) { return Verdict::Inconclusive("distinct-over-ambiguous-cells".into()); }
             let mut seen: Vec<Vec<RV>> = Vec::new();
             let mut out = Vec::new();
-            for mut g in exp { if g.keep == Keep::Yes { let row: Vec<RV> = g.cells.iter().map(|c| c.vals[0].clone()).collect(); if seen.iter().any(|s| tuple_eq(s, &row) || s.iter().zip(row.iter()).all(|(a, b2)| a.same(b2, 1e-9))) { g.keep = Keep::No; } else { seen.push(row); } } out.push(g); }
+            for mut g in exp {
+                if g.keep == Keep::Yes {
+                    let row: Vec<RV> = g.cells.iter().map(|c| c.vals[0].clone()).collect();
+                    if seen.iter().any(|s| tuple_eq(s, &row)) { g.keep = Keep::No; }
+                    // equal only up to rounding (two REAL results a few ulps apart): whether they are duplicates depends on the arithmetic, not decidable here
+                    else if seen.iter().any(|s| s.iter().zip(row.iter()).all(|(a, b2)| a.same(b2, 1e-9))) { return Verdict::Inconclusive("distinct-over-nearly-equal-reals".into()); }
+                    else { seen.push(row); }
+                }
+                out.push(g);
+            }
             obs.hit("distinct");
             out
         } else { exp };
